@@ -5,6 +5,8 @@ import specs.binding as binding
 import specs.wrapper as wrapper
 import specs.violation as violation
 import specs.invariants as invariants
+import specs.decorate as decorate
+import specs.theorems as theorems
 from specs.lib import REG
 
 
@@ -17,6 +19,7 @@ U.update(_by_addr(pure.PURE_SPECS))
 U.update(_by_addr(tr.TRACE_SPECS))
 U.update(_by_addr([binding.KFC, wrapper.UNPACK] + wrapper.WRAPPERS))
 U.update(_by_addr(invariants.INV_SPECS + invariants.INV_WRAPPERS))
+U.update(_by_addr([decorate.RKD, decorate.DWC]))
 
 CHECKER_CONE = [
     "_assert_no_invalid_kwargs", "_assert_resolved_kwargs_valid", "select_condition_kwargs", "select_capture_kwargs",
@@ -35,6 +38,9 @@ INV_UNITS = set(INV_CONE)
 # obligations that exist only because of one property's statement carry meta["props"]; everything else in a unit of
 # the cone counts for every property listed here
 PROPS = {
+    "C05": dict(units=["kwargs_from_call", "resolve_kwdefaults", "decorate_with_checker", "select_condition_kwargs", "select_capture_kwargs",
+                       "select_error_kwargs", "decorate_with_checker/wrapper[sync]", "decorate_with_checker/wrapper[async]"],
+                theorems=[theorems.verify_C05], replay="bind", hints=[]),
     "C01": dict(units=CHECKER_CONE, replay="call", hints=["falsy_error", "groups"]),
     "C02": dict(units=CHECKER_CONE, replay="call", hints=["falsy_error post", "body"]),
     "C08": dict(units=CHECKER_CONE, replay="call", hints=["posts", "fault"]),
